@@ -374,8 +374,12 @@ func mkToRing(s Sort, a *Term) *Term {
 		panic("mkToRing: operand not Int: " + a.Key())
 	}
 	return lift1(a, func(a *Term) *Term {
-		// homomorphism: push through the polynomial structure
+		// homomorphism: pushed through small polynomials only; a big linear form (e.g. the value of
+		// 32 bytes) stays one atom -- the solver sees it as (mod form M) anyway.
 		p := polyOf(a)
+		if len(p.t) > 4 {
+			return &Term{Op: "app", Sort: s, Name: "toring", Args: []*Term{a}}
+		}
 		return fromPoly(p.MapToRing(s))
 	})
 }
